@@ -3,15 +3,28 @@ package memfs
 import (
 	"strings"
 
+	"github.com/goatcms/goatcore/varutil"
 	"github.com/goatcms/goatcore/varutil/goaterr"
 )
 
+// reduceNodePath return shorter path version for a path which must contains a node name.
+// Return error if the path refers to a parent directory or to the filespace root directory.
+func reduceNodePath(p string) (result string, err error) {
+	if result, err = varutil.ReduceAbsPath(p); err != nil {
+		return "", err
+	}
+	if result == "" {
+		return "", goaterr.Errorf("%s: path must contains nodename (it is the filespace root directory)", p)
+	}
+	return result, nil
+}
+
 func splitContainsPath(p string) (dirNodePath []string, nodeName string, err error) {
 	nodePath := strings.Split(p, "/")
-	if len(nodePath) < 1 {
-		return nil, "", goaterr.Errorf("Path must contains nodename")
-	}
 	dirNodePath = nodePath[:len(nodePath)-1]
 	nodeName = nodePath[len(nodePath)-1]
+	if nodeName == "" {
+		return nil, "", goaterr.Errorf("Path must contains nodename")
+	}
 	return dirNodePath, nodeName, nil
 }
